@@ -854,6 +854,24 @@ def fuzz_campaign(target, prop, seed, runs, max_len, seeds=(), dict_tokens=(), t
         with open(cf, "rb") as f:
             data = f.read()
         kind = "timeout" if crash_files[0].startswith("timeout") else "crash"
+        if kind == "timeout":
+            # a unit that exceeded libFuzzer's 25 s is re-run alone with a 300 s limit: wall-clock time under load is not a
+            # correctness signal. Completing now = a slow unit (counted); not completing = a hang, which is a violation only
+            # for the property that is about termination (C15), otherwise the run is inconclusive.
+            try:
+                rr = subprocess.run(["cargo", "+nightly", "fuzz", "run", "--fuzz-dir", fz, target, cf, "--", "-timeout=300", "-runs=1"],
+                                    cwd=fz, env=env, stdout=subprocess.PIPE, stderr=subprocess.PIPE, text=True, timeout=400)
+                completes = rr.returncode == 0
+            except subprocess.TimeoutExpired:
+                completes = False
+            if completes and not os.path.exists(out_json):
+                stats["slow_units_over_25s"] = 1
+                return stats, [], None
+            if os.path.exists(out_json):
+                with open(out_json) as f:
+                    return stats, [json.load(f)], None
+            if prop != "C15":
+                return stats, [], "libFuzzer unit of %s does not complete within 300 s (inconclusive); input %s" % (target, cf)
         keep = os.path.join(ws.VERIF, "replays", "new") if ws.TAG == "main" else os.path.join(ws.WORK, "replays_new")
         os.makedirs(keep, exist_ok=True)
         kept = os.path.join(keep, "%s_%s_%s" % (prop, target, crash_files[0][:40]))
